@@ -88,7 +88,10 @@ func (lsm *LSM) Close() error {
 	if lsm == nil {
 		return nil
 	}
-	if !lsm.closed.CompareAndSwap(false, true) {
+	lsm.lock.Lock()
+	first := lsm.closed.CompareAndSwap(false, true)
+	lsm.lock.Unlock()
+	if !first {
 		return nil
 	}
 	// wait for all api calls to finish
@@ -480,7 +483,17 @@ func (lsm *LSM) Get(key []byte) (*kv.Entry, error) {
 	if len(key) == 0 {
 		return nil, utils.ErrEmptyKey
 	}
+	// Join the closer's wait group only while Close has not started: the read lock is
+	// shared with Close's `closed = true`, so no Add can race with Close's Wait (which
+	// made Close panic with "WaitGroup is reused before previous Wait has returned"),
+	// and a Get after Close reports ErrDBClosed instead of "key not found".
+	lsm.lock.RLock()
+	if lsm.closed.Load() {
+		lsm.lock.RUnlock()
+		return nil, utils.ErrDBClosed
+	}
 	lsm.closer.Add(1)
+	lsm.lock.RUnlock()
 	defer lsm.closer.Done()
 	tables, release := lsm.GetMemTables()
 	if release != nil {
